@@ -9,6 +9,7 @@
   fault-free trace, so the hypothesis `WF clean` of the theorems is checked per run.
 -/
 import SeataModel.Lemmas.Atomic
+import SeataModel.AT.Conn
 namespace Seata.Props.C02
 open Seata.AT.Atomic
 
@@ -315,5 +316,59 @@ example : (run sample (.db 5) 2).trace =
   decide
 example : (run sample .regRefused 0).trace = [.begin, .sel, .biz, .sel, .failed .register, .rollback] := by decide
 example : (exec (run sample (.db 6) 0).trace).durBiz = 0 ∧ (exec (run sample .none 5).trace).durBiz = 1 := by decide
+
+
+/-! ### a connection over any sequence of statements and local transactions -/
+
+section Conn
+open Seata.AT.Conn
+
+theorem conn_step_inv (s : St) (op : Op) (h : CInv s) : CInv (cstep s op).1 := by
+  unfold CInv at *
+  cases op with
+  | stmt g bf => cases hc : s.autoCommit <;> cases g <;> cases bf <;> simp_all [cstep]
+  | begin g f => cases hc : s.autoCommit <;> cases f <;> simp_all [cstep]
+  | end_ => simp [cstep]
+
+theorem conn_step_seen (s : St) (op : Op) (h : CInv s) :
+    ∀ x ∈ (cstep s op).2, x.belongs = true → x.inTx = true ∧ x.recorded = true := by
+  unfold CInv at h
+  cases op with
+  | stmt g bf => cases hc : s.autoCommit <;> cases g <;> cases bf <;> simp_all [cstep]
+  | begin g f => cases hc : s.autoCommit <;> cases f <;> simp_all [cstep]
+  | end_ => simp [cstep]
+
+/-- **every statement of a global transaction is a recorded statement of a local transaction**: whatever the
+    application does on the connection — statements with or without the global context, local transactions begun
+    with or without it, a BEGIN the driver refuses — a statement that belongs to a global transaction (its own
+    context says so, or the local transaction it runs in was begun under one) reaches the database inside a local
+    transaction and is recorded with it -/
+theorem C02_statements_of_a_global_transaction_are_recorded (ops : List Op) (s : St) (h : CInv s) :
+    CInv (crun cstep s ops).1 ∧
+    ∀ x ∈ (crun cstep s ops).2, x.belongs = true → x.inTx = true ∧ x.recorded = true := by
+  induction ops generalizing s with
+  | nil => exact ⟨h, by simp [crun]⟩
+  | cons op rest ih =>
+    obtain ⟨i1, i2⟩ := ih (cstep s op).1 (conn_step_inv s op h)
+    refine ⟨by simpa [crun] using i1, ?_⟩
+    intro x hx
+    simp only [crun, List.mem_append] at hx
+    rcases hx with hx | hx
+    · exact conn_step_seen s op h x hx
+    · exact i2 x hx
+
+theorem C02_fresh_connection : CInv {} := by simp [CInv]
+
+/-- before the repairs: after a refused BEGIN the next statement ran bare; a statement issued with another
+    context inside a local transaction begun under the global one went unrecorded -/
+theorem C02_before_fix_connection :
+    (crun cstepBeforeFix {} [.stmt true true, .stmt true false]).2 = [⟨true, false, true⟩] ∧
+    (crun cstepBeforeFix {} [.begin true true, .stmt true false]).2 = [⟨true, false, true⟩] ∧
+    (crun cstepBeforeFix {} [.begin true false, .stmt false false, .end_]).2 = [⟨true, true, false⟩] := by decide
+
+example : (crun cstep {} [.begin true false, .stmt false false, .end_, .stmt true true, .stmt true false]).2
+    = [⟨true, true, true⟩, ⟨true, true, true⟩] := by decide
+
+end Conn
 
 end Seata.Props.C02
